@@ -2468,6 +2468,9 @@ int32 tls13WriteClientHello(ssl_t *ssl, sslBuf_t *out,
                 ssl->tls13ClientCipherSuitesLen == 0)
         {
             ssl->tls13ClientCipherSuitesLen = 0;
+            /* This function is re-entered when the first attempt did not
+               fit into outbuf (SSL_FULL): release the earlier backup. */
+            psFree(ssl->tls13ClientCipherSuites, ssl->hsPool);
             ssl->tls13ClientCipherSuites = psMalloc(ssl->hsPool,
                     cipherSpecsLen * sizeof(*ssl->tls13ClientCipherSuites));
             if (ssl->tls13ClientCipherSuites == NULL)
